@@ -615,6 +615,10 @@ def excluded_by(case, known):
 def trans_cases(draw, tier):
     emitter = draw(st.sampled_from(["windows", "fsevents"]))
     opts = {"max_bursts": 4 if tier == "quick" else 7, "max_ops": 5, "makedirs": True, "sleeps": False, "weights": {"replace": 0, "read": 0}}
+    if draw(st.integers(0, 2)) == 0:
+        # names that are not in Unicode normal form C (decomposed e-acute, OHM SIGN) next to plain ones: the stream has
+        # to carry the entry's exact name
+        opts["names"] = ["a", "e\u0301", "\u2126"]
     opts["exclude"] = lambda op, m, pc: op[0] == "replace"
     h = draw(fsops.histories(opts))
     case = {"emitter": emitter, "recursive": draw(st.sampled_from([True, True, False])), "init": h["init"], "bursts": h["bursts"]}
